@@ -469,6 +469,19 @@ def handle (j : Json) : R Json := do
     match rs.find? (fun r => match r with | .error _ => true | .ok _ => false) with
     | some (.error e) => pure (Json.mkObj [("err", jerr e)])
     | _ => pure (Json.mkObj [("ok", jstr (joinStr ['\n', '\n'] (rs.filterMap (fun r => match r with | .ok x => some x | .error _ => none))))])
+  | .str "dump" => do
+    -- penman.dump : `_dump_stream` prints each encoding, a blank line between; a failing graph
+    -- raises after the earlier ones were written (the text written so far is lost to the caller)
+    let m ← getModel (fieldD j "model" .null)
+    let gs ← (← getArr (← field j "graphs")).mapM getGraph
+    let ind ← getIndent (fieldD j "indent" (Json.num (-1)))
+    let c ← getBool (fieldD j "compact" (.bool false))
+    let rs := gs.map fun g => (configure m g none).map (fun t => format t ind c)
+    match rs.find? (fun r => match r with | .error _ => true | .ok _ => false) with
+    | some (.error e) => pure (Json.mkObj [("err", jerr e)])
+    | _ =>
+      let texts := rs.filterMap (fun r => match r with | .ok x => some x | .error _ => none)
+      pure (Json.mkObj [("ok", jstr (if texts.isEmpty then [] else joinStr ['\n', '\n'] texts ++ ['\n']))])
   | .str "main" => do
     let m ← getModel (fieldD j "model" .null)
     let o ← getOpts (fieldD j "opts" (Json.mkObj []))
